@@ -28,7 +28,7 @@ pub struct GenCfg {
 pub fn pick_graph(rng: &mut SplitMix, max_e: u64, max_loops: usize) -> (GraphSpec, Arc<dyn Sampler>) {
     let named = workload::named_graphs();
     for _ in 0..60 {
-        let spec = if rng.chance(2, 5) {
+        let spec = if rng.chance(2, 5) && max_e <= 6 {
             rng.pick(&named).clone()
         } else {
             workload::random_sampling_graph(rng, max_e, max_loops)
@@ -114,8 +114,14 @@ fn make_alt(rng: &mut SplitMix, main: &GraphSpec, max_e: u64, max_l: usize) -> O
                 }
                 _ => {
                     let i = rng.below(v.edges.len() as u64) as usize;
-                    let w = f64::from_bits(v.edges[i].w) * *rng.pick(&[0.75, 1.25, 1.5, 2.0]);
-                    v.edges[i].w = w.to_bits();
+                    if rng.chance(1, 2) {
+                        // the same weight up to a few units in the last place
+                        let k = rng.range(1, 8);
+                        v.edges[i].w = if rng.chance(1, 2) { v.edges[i].w + k } else { v.edges[i].w - k };
+                    } else {
+                        let w = f64::from_bits(v.edges[i].w) * *rng.pick(&[0.75, 1.25, 1.5, 2.0]);
+                        v.edges[i].w = w.to_bits();
+                    }
                 }
             }
             if v.externals == main.externals && v.edges == main.edges {
@@ -197,7 +203,14 @@ pub fn gen_scenario(seed: u64, cfg: &GenCfg) -> Scenario {
     // counts); give it a fixed key stream and a pass-through context
     hashkeys::reset(rng.next());
     ctx::install(usize::MAX, None, PreemptPlan::default());
-    let (max_e, max_l) = if cfg.thorough { (8, 4) } else { (6, 3) };
+    // one scenario in ten on a larger graph (state that only exists for big tables)
+    let big = rng.chance(1, 10);
+    let (max_e, max_l) = match (cfg.thorough, big) {
+        (false, false) => (6, 3),
+        (false, true) => (8, 4),
+        (true, false) => (8, 4),
+        (true, true) => (10, 5),
+    };
     let (spec, s) = pick_graph(&mut rng, max_e, max_l);
     let main = target(spec, s);
     let c18 = cfg.flavor == Flavor::C18;
